@@ -16,32 +16,94 @@
 
 using namespace BitSerializer;
 
-struct Op { std::string kind; std::string key; long long ikey = 0; std::string type; int count = 0; int nsub = 0; };
+struct Op { std::string kind; std::string key; long long ikey = 0; std::string type; int count = 0; int nsub = 0; std::vector<std::string> vals; };
 struct Program { std::vector<Op> ops; };
 struct Log { std::string js = "["; void add(const std::string& rec) { if (js.size() > 1) js += ","; js += rec; } std::string done() const { return js + "]"; } };
 
 static const mz::Ctx kCtx{};
 
-template <class A, class K, class T> static std::string getRec(A& archive, const K& key, T& target) {
-	bool ok = Serialize(archive, key, target);
+// ---- dynamic validators: every slot wraps the real library validator selected by a spec string
+//   R required | Rc required with custom message | G<lo>~<hi> Range<T> | N<k> MinSize | X<k> MaxSize | E Email | P PhoneNumber | L custom functor failing when loaded
+template <class T> struct is_sized : std::false_type {};
+template <class C, class Tr, class Al> struct is_sized<std::basic_string<C, Tr, Al>> : std::true_type {};
+template <class T, class Al> struct is_sized<std::vector<T, Al>> : std::true_type {};
+template <class T, class Al> struct is_sized<std::list<T, Al>> : std::true_type {};
+template <class T, class Al> struct is_sized<std::deque<T, Al>> : std::true_type {};
+template <class K, class V, class C, class Al> struct is_sized<std::map<K, V, C, Al>> : std::true_type {};
+template <class K, class C, class Al> struct is_sized<std::set<K, C, Al>> : std::true_type {};
+template <class T> struct is_u8str : std::false_type {};
+template <> struct is_u8str<std::string> : std::true_type {};
+template <> struct is_u8str<std::u16string> : std::true_type {};
+
+template <class T> struct DynVal {
+	std::string spec;
+	std::optional<std::string> operator()(const T& v, bool loaded) const {
+		if (spec.empty()) return std::nullopt;
+		if (spec == "R") return Required()(v, loaded);
+		if (spec == "Rc") return Required("custom-required")(v, loaded);
+		if (spec == "L") return loaded ? std::make_optional<std::string>("custom-loaded") : std::nullopt;
+		if (spec[0] == 'G') {
+			if constexpr (std::is_arithmetic_v<T> && !std::is_same_v<T, bool>) {
+				size_t sep = spec.find('~');
+				std::string lo = spec.substr(1, sep - 1), hi = spec.substr(sep + 1);
+				T l, h;
+				if constexpr (std::is_floating_point_v<T>) { l = static_cast<T>(strtod(lo.c_str(), nullptr)); h = static_cast<T>(strtod(hi.c_str(), nullptr)); }
+				else if constexpr (std::is_signed_v<T>) { l = static_cast<T>(strtoll(lo.c_str(), nullptr, 10)); h = static_cast<T>(strtoll(hi.c_str(), nullptr, 10)); }
+				else { l = static_cast<T>(strtoull(lo.c_str(), nullptr, 10)); h = static_cast<T>(strtoull(hi.c_str(), nullptr, 10)); }
+				return Range<T>(l, h)(v, loaded);
+			}
+			return std::make_optional<std::string>("harness: Range on a non-arithmetic target");
+		}
+		if (spec[0] == 'N' || spec[0] == 'X') {
+			if constexpr (is_sized<T>::value) {
+				size_t k = strtoull(spec.c_str() + 1, nullptr, 10);
+				return spec[0] == 'N' ? MinSize(k)(v, loaded) : MaxSize(k)(v, loaded);
+			}
+			return std::make_optional<std::string>("harness: size validator on an unsized target");
+		}
+		if (spec == "E" || spec == "P") {
+			if constexpr (is_u8str<T>::value) { return spec == "E" ? Email()(v, loaded) : PhoneNumber()(v, loaded); }
+			return std::make_optional<std::string>("harness: string validator on another target");
+		}
+		return std::make_optional<std::string>("harness: unknown validator");
+	}
+};
+struct Probe { bool* out; template <class T> std::optional<std::string> operator()(const T&, bool loaded) const { *out = loaded; return std::nullopt; } };
+
+template <class A, class K, class T> static std::string getRec(A& archive, const K& key, T& target, const std::vector<std::string>& vals) {
+	bool ok = false;
+	if (vals.empty()) ok = Serialize(archive, key, target);
+	else if (vals.size() == 1 && vals[0] == "R") archive << KeyValue(key, target, Required(), Probe{ &ok });
+	else {
+		DynVal<T> v0{ vals[0] }, v1{ vals.size() > 1 ? vals[1] : "" }, v2{ vals.size() > 2 ? vals[2] : "" };
+		archive << KeyValue(key, target, v0, v1, v2, Probe{ &ok });
+	}
 	return std::string("{\"ok\":") + (ok ? "true" : "false") + ",\"v\":" + mz::desc(target, kCtx) + "}";
 }
 
-template <class A, class K> static std::string execGet(A& archive, const K& key, const std::string& type) {
-	if (type == "i64") { int64_t t = 0x5A5A5A5A5A5A5A5ALL; return getRec(archive, key, t); }
-	if (type == "u64") { uint64_t t = 0x5A5A5A5A5A5A5A5AULL; return getRec(archive, key, t); }
-	if (type == "i32") { int32_t t = 0x5A5A5A5A; return getRec(archive, key, t); }
-	if (type == "u8") { uint8_t t = 0x5A; return getRec(archive, key, t); }
-	if (type == "f64") { double t = 1234.5; return getRec(archive, key, t); }
-	if (type == "bool") { bool t = true; return getRec(archive, key, t); }
-	if (type == "str") { std::string t = "~sentinel~"; return getRec(archive, key, t); }
-	if (type == "wstr") { std::u16string t = u"~sentinel~"; return getRec(archive, key, t); }
-	if (type == "ostr") { std::optional<std::string> t = std::string("~sentinel~"); return getRec(archive, key, t); }
-	if (type == "oi64") { std::optional<int64_t> t = 77; return getRec(archive, key, t); }
-	if (type == "uptr") { auto t = std::make_unique<int32_t>(0x5A5A5A5A); return getRec(archive, key, t); }
-	if (type == "atom") { std::atomic<int32_t> t{ 0x5A5A5A5A }; return getRec(archive, key, t); }
-	if (type == "tpms") { mz::tp_ms t{ std::chrono::milliseconds(5555) }; return getRec(archive, key, t); }
-	return "{\"error\":\"type\"}";
+template <class T> static void makeFresh(T& t) { t = T{}; }
+template <class T> static void makeFresh(std::atomic<T>& t) { t.store(T{}); }
+
+using Tup3 = std::tuple<int32_t, std::string, double>;
+using MapSI = std::map<std::string, int32_t>;
+template <class A, class K> static std::string execGet(A& archive, const K& key, const std::string& type, const std::vector<std::string>& vals, bool fresh) {
+#define TGT(NAME, TYPE, ...) if (type == NAME) { TYPE t __VA_ARGS__; if (fresh) makeFresh(t); return getRec(archive, key, t, vals); }
+	TGT("i8", int8_t, = 0x5A) TGT("i16", int16_t, = 0x5A5A) TGT("i32", int32_t, = 0x5A5A5A5A) TGT("i64", int64_t, = 0x5A5A5A5A5A5A5A5ALL)
+	TGT("u8", uint8_t, = 0x5A) TGT("u16", uint16_t, = 0x5A5A) TGT("u32", uint32_t, = 0x5A5A5A5Au) TGT("u64", uint64_t, = 0x5A5A5A5A5A5A5A5AULL)
+	TGT("f32", float, = 1234.5f) TGT("f64", double, = 1234.5) TGT("bool", bool, = true)
+	TGT("str", std::string, = "~sentinel~") TGT("wstr", std::u16string, = u"~sentinel~")
+	TGT("ostr", std::optional<std::string>, = std::string("~sentinel~")) TGT("oi64", std::optional<int64_t>, = 77)
+	TGT("uptr", std::unique_ptr<int32_t>, = std::make_unique<int32_t>(0x5A5A5A5A)) TGT("atom", std::atomic<int32_t>, { 0x5A5A5A5A })
+	TGT("tpms", mz::tp_ms, { std::chrono::milliseconds(5555) })
+	if constexpr (A::archive_type != ArchiveType::Csv) {
+		TGT("v_i32", std::vector<int32_t>, = { 7, 8, 9 }) TGT("v_i64", std::vector<int64_t>, = { 7, 8, 9 }) TGT("v_u16", std::vector<uint16_t>, = { 7, 8, 9 })
+		TGT("v_f32", std::vector<float>, = { 1.5f }) TGT("v_f64", std::vector<double>, = { 1.5 }) TGT("v_bool", std::vector<bool>, = { true })
+		TGT("v_str", std::vector<std::string>, = { "~a~", "~b~" }) TGT("vv_i32", std::vector<std::vector<int32_t>>, = { { 7 }, { 8, 9 } })
+		TGT("l_i64", std::list<int64_t>, = { 7, 8, 9 }) TGT("d_u16", std::deque<uint16_t>, = { 7, 8, 9 })
+		TGT("tup", Tup3, = { -7, "~t~", -7.5 }) TGT("m_s_i32", MapSI, = { { "~k~", 7 } })
+	}
+#undef TGT
+	return "{\"error\":\"type " + type + "\"}";
 }
 
 struct PartialArray { int count; std::string type; Log* log; };
@@ -60,6 +122,10 @@ template <class A> void SerializeArray(A& archive, PartialArray& pa) {
 }
 size_t size(const PartialArray&) { return 0; }
 
+static bool gFresh = false;
+struct ObjArray { const Program* prog; size_t begin, end; Log* log; };
+size_t size(const ObjArray&) { return 0; }
+template <class A> void SerializeArray(A& archive, ObjArray& oa);
 struct Scripted {
 	const Program* prog = nullptr; size_t begin = 0, end = 0; Log* log = nullptr;
 	template <class A> void Serialize(A& archive) {
@@ -67,9 +133,9 @@ struct Scripted {
 			size_t i = begin;
 			while (i < end) {
 				const Op& op = prog->ops[i];
-				if (op.kind == "G") { log->add(execGet(archive, op.key, op.type)); ++i; }
+				if (op.kind == "G") { log->add(execGet(archive, op.key, op.type, op.vals, gFresh)); ++i; }
 				else if (op.kind == "Gi") {
-					if constexpr (A::archive_type == ArchiveType::MsgPack) log->add(execGet(archive, static_cast<int64_t>(op.ikey), op.type)); else log->add("{\"error\":\"int key\"}");
+					if constexpr (A::archive_type == ArchiveType::MsgPack) log->add(execGet(archive, static_cast<int64_t>(op.ikey), op.type, op.vals, gFresh)); else log->add("{\"error\":\"int key\"}");
 					++i;
 				}
 				else if (op.kind == "O") {
@@ -88,6 +154,15 @@ struct Scripted {
 						log->add(std::string("{\"array\":") + (ok ? "true" : "false") + "}");
 					} else log->add("{\"error\":\"array in csv\"}");
 					++i;
+				}
+				else if (op.kind == "AO") {
+					if constexpr (A::archive_type != ArchiveType::Csv) {
+						ObjArray oa{ prog, i + 1, i + 1 + size_t(op.nsub), log };
+						log->add("{\"open\":\"objarray\"}");
+						bool ok = BitSerializer::Serialize(archive, op.key, oa);
+						log->add(std::string("{\"close\":\"objarray\",\"ok\":") + (ok ? "true" : "false") + "}");
+					} else log->add("{\"error\":\"array in csv\"}");
+					i += 1 + size_t(op.nsub);
 				}
 				else if (op.kind == "V") {
 					std::string rec = "{\"keys\":[";
@@ -108,6 +183,16 @@ struct Scripted {
 	}
 };
 
+template <class A> void SerializeArray(A& archive, ObjArray& oa) {
+	if constexpr (A::IsLoading()) {
+		for (int n = 0; !archive.IsEnd(); ++n) {
+			oa.log->add("{\"elem\":" + std::to_string(n) + "}");
+			Scripted child{ oa.prog, oa.begin, oa.end, oa.log };
+			Serialize(archive, child);
+		}
+	}
+}
+
 struct CsvSentinelRow {
 	std::string a, b;
 	template <class A> void Serialize(A& archive) { archive << KeyValue(std::string("s1"), a) << KeyValue(std::string("s2"), b); }
@@ -123,9 +208,9 @@ static Program parseProgram(const std::string& s) {
 		std::vector<std::string> f; size_t q = 0;
 		while (q <= tok.size()) { size_t c = tok.find(':', q); if (c == std::string::npos) c = tok.size(); f.push_back(tok.substr(q, c - q)); q = c + 1; }
 		Op op; op.kind = f[0];
-		if (op.kind == "G") { op.key = vh::unhex(f[1]); op.type = f[2]; }
+		if (op.kind == "G") { op.key = vh::unhex(f[1]); op.type = f[2]; if (f.size() > 3 && !f[3].empty()) { size_t q2 = 0; while (q2 <= f[3].size()) { size_t c2 = f[3].find(',', q2); if (c2 == std::string::npos) c2 = f[3].size(); op.vals.push_back(f[3].substr(q2, c2 - q2)); q2 = c2 + 1; } } }
 		else if (op.kind == "Gi") { op.ikey = strtoll(f[1].c_str(), nullptr, 10); op.type = f[2]; }
-		else if (op.kind == "O") { op.key = vh::unhex(f[1]); op.nsub = atoi(f[2].c_str()); }
+		else if (op.kind == "O" || op.kind == "AO") { op.key = vh::unhex(f[1]); op.nsub = atoi(f[2].c_str()); }
 		else if (op.kind == "A") { op.key = vh::unhex(f[1]); op.count = atoi(f[2].c_str()); op.type = f[3]; }
 		p.ops.push_back(op);
 	}
@@ -135,9 +220,20 @@ static Program parseProgram(const std::string& s) {
 template <class TArchive, class TRoot> static std::string runWith(const vh::Case& c, TRoot& root, const SerializationOptions& opt) {
 	std::string doc = c.bytes("doc"), src = c.get("src", "mem");
 	size_t step = size_t(c.geti("step", 7));
-	std::string out = "ok", exc, code, what;
+	std::string out = "ok", exc, code, what, verrs;
 	auto guarded = [&](auto&& f) {
 		try { f(); }
+		catch (const ValidationException& ex) {
+			out = "validation"; exc = "BitSerializer::ValidationException"; code = Convert::ToString(ex.GetErrorCode()); what = ex.what();
+			verrs = "{"; bool first = true;
+			for (auto& kv : ex.GetValidationErrors()) {
+				if (!first) verrs += ","; first = false;
+				verrs += vh::jstr(vh::hex(kv.first)) + ":[";
+				for (size_t m = 0; m < kv.second.size(); ++m) { if (m) verrs += ","; verrs += vh::jstr(vh::hex(kv.second[m])); }
+				verrs += "]";
+			}
+			verrs += "}";
+		}
 		catch (const SerializationException& ex) { out = "exc"; exc = vh::demangle(typeid(ex).name()); code = Convert::ToString(ex.GetErrorCode()); what = ex.what(); }
 		catch (const std::exception& ex) { out = "exc"; exc = vh::demangle(typeid(ex).name()); what = ex.what(); }
 	};
@@ -152,6 +248,7 @@ template <class TArchive, class TRoot> static std::string runWith(const vh::Case
 	}
 	vh::JObj j; j.str("out", out);
 	if (out != "ok") { j.str("exc", exc).str("code", code).str("what", what.substr(0, 160)); }
+	if (!verrs.empty()) j.raw("verrs", verrs);
 	return j.done();
 }
 
@@ -161,6 +258,8 @@ static std::string opRun(const vh::Case& c) {
 	SerializationOptions opt;
 	opt.mismatchedTypesPolicy = c.get("mis", "skip") == "skip" ? MismatchedTypesPolicy::Skip : MismatchedTypesPolicy::ThrowError;
 	opt.overflowNumberPolicy = c.get("ovf", "skip") == "skip" ? OverflowNumberPolicy::Skip : OverflowNumberPolicy::ThrowError;
+	opt.maxValidationErrors = uint32_t(c.geti("maxerr", 0));
+	gFresh = c.geti("fresh", 0) != 0;
 	std::string arch = c.get("arch"), res, tail;
 	Scripted s{ &prog, 0, prog.ops.size(), &log };
 	if (arch == "csv") {
